@@ -24,6 +24,8 @@ VIOLATIONS = [
     ("base_client_name_invalid", {"base_client_name": "Base-Client", "base_client_file_path": "__BASE__/base.py"}, "InvalidConfiguration"),
     ("base_client_file_missing", {"base_client_name": "MyBase", "base_client_file_path": "/nonexistent/base.py"}, "InvalidConfiguration"),
     ("base_client_class_missing", {"base_client_name": "Other", "base_client_file_path": "__BASE__/base.py"}, "InvalidConfiguration"),
+    ("base_client_class_prefix_only", {"base_client_name": "MyBa", "base_client_file_path": "__BASE__/base.py"}, "InvalidConfiguration"),
+    ("base_client_class_suffix_only", {"base_client_name": "Base", "base_client_file_path": "__BASE__/base.py"}, "InvalidConfiguration"),
     ("enums_module_invalid", {"enums_module_name": "my enums"}, "InvalidConfiguration"),
     ("inputs_module_invalid", {"input_types_module_name": "in-puts"}, "InvalidConfiguration"),
     ("fragments_module_invalid", {"fragments_module_name": "frag.ments"}, "InvalidConfiguration"),
